@@ -218,3 +218,91 @@ class GenoIndex(SubCheck):
 
 
 SUBCHECKS = {c.name: c for c in [GenoIndex()]}
+
+
+class BinomKernel(SubCheck):
+    """binomial_coefficient(n, k) - the kernel under get_index / convert_index_to_alleles - equals C(n, k) without
+    overflow for every argument pair the supported limits (ploidy <= 14, alleles <= 16) can produce: n <= 29, k <= 15."""
+
+    name = "binom_kernel"
+    encoded = ["binomial_coefficient (src/binomial.cpp, from LLVM IR)"]
+    sources = ["src/binomial.cpp", "src/binomial.h"]
+    stubs = []
+    assumptions = ["0 <= n <= 29, 0 <= k <= 15 (get_index calls C(k + a - 1, a - 1) with k <= 14, a <= 15; convert_index_to_alleles calls C(p + a - 1, p) with p <= 14, a <= 16)"]
+    required_cover = ["kernel equals C(n,k)"]
+
+    def shapes(self, tier):
+        return [dict(k=k) for k in range(0, 16)]
+
+    def bounds(self, tier):
+        return "k = 0..15 (one job each), ALL n in [0, 29] at once as a value-set input"
+
+    def setup(self):
+        from vf.llsym import pipeline
+
+        pipeline.ensure_ir2json()
+        pipeline.core_bitcode(["binomial.cpp"])
+
+    @staticmethod
+    def src(k):
+        return '#include "binomial.h"\nextern "C" unsigned sym_vs(const char*, unsigned, unsigned);\nextern "C" void sym_out(const char*, unsigned, unsigned);\nextern "C" void harness() {\n  unsigned n = sym_vs("n", 0, 29);\n  int r = binomial_coefficient((int)n, %d);\n  sym_out("r", 0, (unsigned)r);\n}\n' % k
+
+    def run(self, shape, tier, seed):
+        from vf.llsym import pipeline, irmod, dpcheck
+        from vf.llsym.interp import Interp, run_in_thread
+        from vf.llsym.values import Unsupported
+
+        t0 = time.time()
+        k = shape["k"]
+        src = self.src(k)
+        stats = dict(paths=1, decisions=0, solver_queries=0, solver_s=0.0)
+        viol, errors, samples = [], [], []
+        try:
+            mod = irmod.Module(pipeline.harness_module(src, ["binomial.cpp"]))
+            it = Interp(mod, inputs_symbolic=True, time_budget=600)
+            status = run_in_thread(lambda: it.run_harness())
+        except Unsupported as u:
+            return JobResult(sub=self.name, shape=shape, stats=stats, violations=[], samples=[], cover={}, errors=["LLSym unsupported: %s" % u], replays=0, obligations=1, discharged=0, inconclusive=1, wall_s=time.time() - t0)
+        exe = pipeline.native_twin(src, ["binomial.cpp"], tag="btwin")
+        n = z3.Int("n")
+        table = z3.IntVal(math.comb(29, k))
+        for v in reversed(range(29)):
+            table = z3.If(n == v, z3.IntVal(math.comb(v, k)), table)
+        ndis = ninc = replays = 0
+        if status != "ok":
+            errors.append("symbolic run aborted: %r" % (status,))
+        else:
+            out = dpcheck.to_z3(it, it.outputs[("r", 0)][1])
+            r, model, dt = dpcheck.solve(out != table, list(it.constraints), 120000)
+            stats["solver_queries"] += 1
+            stats["solver_s"] += dt
+            stats["decisions"] = it.stats["merges"]
+            if r == "unsat":
+                ndis = 1
+                samples.append(dict(sub=self.name, shape=shape, obligation="binomial_coefficient(n,%d) == C(n,%d) for all n <= 29" % (k, k), result="unsat"))
+            elif r == "unknown":
+                ninc = 1
+            else:
+                nv = model.eval(n, model_completion=True).as_long()
+                st, exc, o = pipeline.run_native(exe, {"n": nv})
+                replays += 1
+                got = o.get(("r", 0))
+                if st != "ok" or got != math.comb(nv, k) % (1 << 32):
+                    viol.append(dict(sub=self.name, shape=shape, witness={"n": nv}, msg="binomial_coefficient(%d, %d) returns %s, C(n,k) = %d (overflow of the intermediate product?)" % (nv, k, got if st == "ok" else exc, math.comb(nv, k)), info=None, reproduced=True, concrete=[st, exc]))
+                else:
+                    errors.append("model n=%d not confirmed natively" % nv)
+        return JobResult(sub=self.name, shape=shape, stats=stats, violations=viol, samples=samples, cover={"kernel equals C(n,k)": 1}, errors=errors, replays=replays, obligations=1, discharged=ndis, inconclusive=ninc, wall_s=time.time() - t0)
+
+    def replay(self, shape, witness):
+        from vf.llsym import pipeline
+
+        exe = pipeline.native_twin(self.src(shape["k"]), ["binomial.cpp"], tag="btwin")
+        st, exc, o = pipeline.run_native(exe, witness)
+        ok = st == "ok" and o.get(("r", 0)) == math.comb(witness["n"], shape["k"])
+        return ("ok" if ok else "violation"), None if ok else "binomial_coefficient wrong", []
+
+    def classify(self, shape, v):
+        return "binom_kernel:k=%d:%s" % (shape["k"], v["msg"][:60])
+
+
+SUBCHECKS["binom_kernel"] = BinomKernel()
